@@ -534,6 +534,31 @@ func (c *compiler) compileBind(l, r *Query, patterns []*Pattern) error {
 	if err := c.compileQuery(l); err != nil {
 		return err
 	}
+	if len(patterns) > 1 {
+		// variables of the alternatives which are not taken should be null,
+		// not the values bound for a previous output of the source query
+		var reset func(*Pattern)
+		reset = func(p *Pattern) {
+			if p.Name != "" {
+				c.append(&code{op: oppush, v: nil})
+				c.append(&code{op: opstore, v: c.pushVariable(p.Name)})
+			}
+			for _, p := range p.Array {
+				reset(p)
+			}
+			for _, kv := range p.Object {
+				if kv.Key != "" && kv.Key[0] == '$' {
+					reset(&Pattern{Name: kv.Key})
+				}
+				if kv.Val != nil {
+					reset(kv.Val)
+				}
+			}
+		}
+		for _, p := range patterns {
+			reset(p)
+		}
+	}
 	var pc int
 	var vs [][2]int
 	for i, p := range patterns {
